@@ -6,6 +6,8 @@
 name: mbuff.done
 define: U_DONE
 src: mbuff.c
+native: mbuff
+native_includes: mbuff.c
 enforce: spif_mbuff_done
 backend: sat
 objbits: 6
@@ -14,6 +16,8 @@ objbits: 6
 name: mbuff.del
 define: U_DEL
 src: mbuff.c
+native: mbuff
+native_includes: mbuff.c
 enforce: spif_mbuff_del
 backend: sat
 objbits: 6
@@ -23,6 +27,8 @@ funcs: spif_mbuff_done
 name: mbuff.dup.nonempty
 define: U_DUP, U_NONEMPTY
 src: mbuff.c, obj.c
+native: mbuff
+native_includes: mbuff.c
 enforce: spif_mbuff_dup
 backend: sat
 objbits: 6
@@ -32,6 +38,8 @@ flags: --slice-formula
 name: mbuff.dup.empty
 define: U_DUP, U_EMPTY, U_NOT_KF
 src: mbuff.c, obj.c
+native: mbuff
+native_includes: mbuff.c
 enforce: spif_mbuff_dup
 backend: sat
 objbits: 6
@@ -41,6 +49,8 @@ flags: --slice-formula
 name: mbuff.dup.empty.inv
 define: U_DUP, U_EMPTY, U_ONLY_KF
 src: mbuff.c, obj.c
+native: mbuff
+native_includes: mbuff.c
 enforce: spif_mbuff_dup
 backend: sat
 objbits: 6
@@ -50,6 +60,8 @@ flags: --slice-formula
 name: mbuff.type
 define: U_TYPE
 src: mbuff.c, obj.c
+native: mbuff
+native_includes: mbuff.c
 enforce: spif_mbuff_type
 backend: sat
 objbits: 6
